@@ -136,6 +136,12 @@ package kfmt
 //@   loop 4 invariant high: forall(k, int, right < k && k < end ==> numFmtBuf[k] == at(b0, dataptr(numFmtBuf) + uintptr(end-1-k)))
 //@   loop 4 invariant middle: forall(k, int, left <= k && k <= right ==> numFmtBuf[k] == at(b0, dataptr(numFmtBuf) + uintptr(k)))
 
+// width of a directive: the decimal number formed by the digits between '%' and the verb, with
+// the code's own (wrapping) arithmetic: decv(c, base, lo, hi) over the digit bytes among lo..hi-1
+// (a byte that is neither digit nor verb is reported and skipped, the width keeps accumulating)
+//@ ufun decv(c arr[uint8], base uintptr, lo int, hi int) int
+//@ axiom dec0(c arr[uint8], base uintptr, lo int): decv(c, base, lo, lo) == 0
+//@ axiom decS(c arr[uint8], base uintptr, lo int, hi int): decv(c, base, lo, hi+1) == ite(at(c, base + uintptr(hi)) >= 48 && at(c, base + uintptr(hi)) <= 57, decv(c, base, lo, hi)*10 + int(at(c, base + uintptr(hi)) - 48), decv(c, base, lo, hi))
 // Fprintf: for ANY format string and arguments no index, slice or type-assertion panic; the
 // scratch buffers keep their shape. (The directive-level output clause is not part of this contract.)
 //@ func Fprintf(w io.Writer, format string, args ...interface{})
@@ -146,7 +152,10 @@ package kfmt
 //@   ensures [C15] bufsOK()
 //@   loop 1 (blockEnd < fmtLen) invariant scan: 0 <= blockStart && blockStart <= blockEnd && blockEnd <= fmtLen + 1 && (blockEnd > fmtLen ==> blockStart == blockEnd) && 0 <= nextArgIndex && nextArgIndex <= len(args) && bufsOK() && fmtLen == len(format)
 //@   loop 2 (i < blockEnd) invariant lit: blockStart <= i && i <= blockEnd && blockEnd < fmtLen && bufsOK() && 0 <= nextArgIndex && nextArgIndex <= len(args) && 0 <= blockStart
-//@   loop 3 (blockEnd < fmtLen) invariant dir: 0 <= blockEnd && blockEnd <= fmtLen && 0 <= nextArgIndex && nextArgIndex <= len(args) && bufsOK() && fmtLen == len(format)
+//@   loop 3 (blockEnd < fmtLen) ghost ds = blockEnd
+//@   loop 3 use dec0(contents(format), dataptr(format), ds); decS(contents(format), dataptr(format), ds, blockEnd)
+//@   loop 3 invariant width: ds <= blockEnd && (blockEnd == ds ==> padLen == 0) && (blockEnd > ds ==> padLen == decv(contents(format), dataptr(format), ds, blockEnd))
+//@   loop 3 invariant dir: 0 <= blockEnd && blockEnd <= fmtLen && 0 <= nextArgIndex && nextArgIndex <= len(args) && bufsOK() && fmtLen == len(format)
 //@   loop 4 (i < blockEnd) invariant tail: blockStart <= i && 0 <= blockStart && blockEnd <= fmtLen && bufsOK()
 //@   loop 5 (nextArgIndex < len(args)) invariant extra: bufsOK()
 
